@@ -87,6 +87,28 @@ Proof.
     unfold N, py_len. rewrite Hlen. lia.
 Qed.
 
+(* the (data_start, data_end) pairs themselves form a chain 0 = s_0 <= e_0 = s_1 <= ... <= e_{P-1} = N *)
+Definition gf_start {A} (l : list A) (r P : Z) : Z :=
+  match get_functions_slice l r P with Some (_, ds, _) => ds | None => -1 end.
+Definition gf_end {A} (l : list A) (r P : Z) : Z :=
+  match get_functions_slice l r P with Some (_, _, de) => de | None => -1 end.
+
+Theorem get_functions_chain {A} (l : list A) (P : Z) :
+  1 <= P ->
+  gf_start l 0 P = 0 /\ gf_end l (P - 1) P = py_len l /\
+  (forall r, 0 <= r < P - 1 -> gf_end l r P = gf_start l (r + 1) P) /\
+  (forall r, 0 <= r < P -> 0 <= gf_start l r P <= gf_end l r P /\ gf_end l r P <= py_len l).
+Proof.
+  intros HP. destruct (get_functions_spec l P HP) as (k & Hk & Hx & Hs).
+  unfold gf_start, gf_end. repeat split; intros; rewrite ?Hs; unfold gf_bounds; cbn [fst snd].
+  - lia.
+  - rewrite Z.eqb_refl. reflexivity.
+  - destruct (Z.eqb_spec r (P - 1)); lia.
+  - nia.
+  - destruct (Z.eqb_spec r (P - 1)); nia.
+  - destruct (Z.eqb_spec r (P - 1)); nia.
+Qed.
+
 (* ------------------------------------------------------------------ *)
 (* split_idx                                                           *)
 
